@@ -4,6 +4,7 @@ import (
 	cryptorand "crypto/rand"
 	"fmt"
 	"net"
+	"syscall"
 	"time"
 
 	"hop.computer/hop/certs"
@@ -41,7 +42,8 @@ type vhostServer struct {
 // (that constructor itself opens a real socket, so it cannot be called).
 func startVHostServer(r *Run, n *Net, nHosts int, hidden bool, fallback bool) *vhostServer {
 	vs := &vhostServer{addr: Addr(1, 77), pki: NewPKI("vh"), hidden: hidden}
-	pats := [][2]string{{"alpha.sim", "alpha.sim"}, {"*.beta.sim", "www.beta.sim"}, {"gamma-*", "gamma-7"}, {"d*a.sim", "delta.sim"}}
+	pats := [][2]string{{"alpha.sim", "alpha.sim"}, {"*.beta.sim", "www.beta.sim"}, {"gamma-*", "gamma-7"}, {"d*a.sim", "delta.sim"},
+		{"ex.*.sim", "ex.www.sim"}, {"a*a", "aba"}, {"host.*.host", "host.q.host"}}
 	sc := &config.ServerConfig{}
 	for i := 0; i < nHosts; i++ {
 		p := pats[(i+r.Intn("vh", len(pats)))%len(pats)]
@@ -111,6 +113,14 @@ func startVHostServer(r *Run, n *Net, nHosts int, hidden bool, fallback bool) *v
 	vs.srv = srv
 	go srv.Serve()
 	return vs
+}
+
+// epOr returns the server's endpoint (of the single-certificate server if that is the one in use).
+func (vs *vhostServer) epOr(single *TServer) *Endpoint {
+	if single != nil {
+		return single.EP
+	}
+	return vs.ep
 }
 
 func (vs *vhostServer) client(r *Run, n *Net, h *vhost, addr *net.UDPAddr) *TClient {
@@ -193,6 +203,12 @@ func (s *liveSess) probeS2C(r *Run, tag string) bool {
 
 func weirdName(r *Run, key string) certs.Name {
 	var label []byte
+	if r.Intn(key, 4) == 0 {
+		// names that sit on the edges of the host patterns in use: the literal parts of a pattern pushed
+		// together, cut by one character, doubled
+		edge := []string{"ex.sim", "ex..sim", "ex.sim.sim", "a", "aa", "host.host", "host..host", "gamma-", "gamma", "da.sim", "d.sim", ".beta.sim", "beta.sim", "*", "ex.*.sim"}
+		return certs.Name{Type: certs.TypeDNSName, Label: []byte(edge[r.Intn(key, len(edge))])}
+	}
 	switch r.Intn(key, 10) {
 	case 0:
 		label = []byte{}
@@ -256,6 +272,7 @@ func scJunk(r *Run) {
 	} else {
 		srv = vs.srv
 	}
+	srvEP := vs.epOr(single)
 	newHonest := func(i int, addr *net.UDPAddr) *TClient {
 		if single != nil {
 			return NewTClient(r, n, single, ClientOpts{Addr: addr, Hidden: hidden, HSTimeout: 3 * time.Second})
@@ -306,6 +323,13 @@ func scJunk(r *Run) {
 	// the attacker also tampers with its OWN, otherwise valid, handshake messages in flight: the two
 	// length prefixes inside the encrypted certificate block are set (by XOR, it is a stream cipher and the
 	// attacker knows its own plaintext) to values at and around the block length
+	unreachable := map[string]bool{}
+	srvEP.WriteErr = func(dst *net.UDPAddr) error {
+		if unreachable[dst.String()] {
+			return syscall.ENETUNREACH
+		}
+		return nil
+	}
 	atkLeafLen := map[string]int{}
 	// attackers that follow the protocol with the real client code, except that (a) the certificate blob in
 	// their ClientAuth is of their own making, or (b) they stop after the ClientAck and leave a half-open
@@ -504,6 +528,11 @@ func scJunk(r *Run) {
 				}
 			}
 			aaddr := Addr(byte(120+r.Intn("junk", 100)), 7000+i)
+			if r.Intn("junk", 6) == 0 {
+				// the server cannot send to this source (spoofed, unroutable): its answers fail with an error
+				unreachable[aaddr.String()] = true
+				r.CountFault("junk-from-source-the-server-cannot-reach", 1)
+			}
 			ep := n.Listen("atk", aaddr, srvAddr)
 			c := transport.NewClient(ep, srvAddr, cfg)
 			lb, lerr := cfg.Leaf.Marshal()
@@ -580,6 +609,7 @@ func scJunk(r *Run) {
 			ai.c.Close()
 			delete(atkBy, a.String())
 		}
+		delete(unreachable, a.String()) // (the honest client behind that address can be reached)
 		again := newHonest(i, a)
 		r.Obligation(1)
 		if err := again.C.Handshake(); err != nil {
